@@ -1,7 +1,6 @@
 (* Proofs about ParseTimeout (Model/ConfigModel.v) over the binary64 model:
      float(str(i)) = float(i); float(repr(v)) = v for every float v; repr never ends in 'm';
-     the unparse/parse round trip of every value for which unparse returns;
-     unparse returns for every non-negative value; it raises for some negative ones. *)
+     unparse returns for every float, and parsing what it returns gives the value back. *)
 From Coq Require Import ZArith List Bool QArith Lia Arith ZifyBool.
 From HV Require Import Gen.GenConfig Gen.GenConfigTime Gen.GenConfigMain Spec.ConfigSpec
   Model.ConfigFloatModel Model.ConfigModel Proofs.ConfigFloatProofs Proofs.ConfigCodecProofs.
@@ -11,7 +10,7 @@ Open Scope Z_scope.
 (* The literals the proofs below are about (regenerated from config.py / utils.py on every run).
    Checked first: a changed literal stops the build here, at once, with this lemma's name. *)
 Lemma timeout_literals_pinned :
-  timeout_unparse_inf_literal = [105; 110; 102] /\
+  timeout_unparse_inf_literal = [105; 110; 102] /\ timeout_unparse_ms_inf_literal = [105; 110; 102] /\
   timeout_unparse_threshold = 1 /\ timeout_unparse_small_factor = 1000 /\ timeout_unparse_small_divisor = 1000 /\
   timeout_unparse_large_suffix = [115] /\ timeout_unparse_small_suffix = [109; 115] /\
   timeout_unparse_exact_suffix = [115] /\ timeout_default_unit = [109; 115] /\
@@ -377,6 +376,9 @@ Proof. apply f_of_Z_small. split; [lia|reflexivity]. Qed.
 Lemma inf_literal : py_float timeout_unparse_inf_literal = Some (FInf false).
 Proof. vm_compute. reflexivity. Qed.
 
+Lemma ms_inf_literal : py_float timeout_unparse_ms_inf_literal = Some (FInf false).
+Proof. vm_compute. reflexivity. Qed.
+
 (* the integer i with (signed magnitude of ms) = i * 2^1074 converts back to ms, except that the
    sign of a zero is lost *)
 Lemma f_of_Z_of_integral : forall nb kb i, representable kb -> kb < F_TOP ->
@@ -396,17 +398,19 @@ Qed.
 (* the part of unparse after the whole-seconds test *)
 Definition unparse_tail (v : f64) : option (list Z) :=
   let ms := f_mul v (f_of_Z timeout_unparse_small_factor) in
-  match f_trunc ms with
-  | None => None
-  | Some i =>
-      match (if f_eqb_Z ms i
-             then option_map (fun q => f_eqb q v) (f_div ms (f_of_Z timeout_unparse_small_divisor))
-             else Some false) with
-      | None => None
-      | Some true => Some (str_of_Z i ++ timeout_unparse_small_suffix)
-      | Some false => Some (float_repr v ++ timeout_unparse_exact_suffix)
-      end
-  end.
+  if negb (f_eqb (f_abs ms) (FInf false)) then
+    match f_trunc ms with
+    | None => None
+    | Some i =>
+        match (if f_eqb_Z ms i
+               then option_map (fun q => f_eqb q v) (f_div ms (f_of_Z timeout_unparse_small_divisor))
+               else Some false) with
+        | None => None
+        | Some true => Some (str_of_Z i ++ timeout_unparse_small_suffix)
+        | Some false => Some (float_repr v ++ timeout_unparse_exact_suffix)
+        end
+    end
+  else Some (float_repr v ++ timeout_unparse_exact_suffix).
 
 Lemma unparse_tail_faithful : forall neg k s, valid_f64 (FFin neg k) -> unparse_tail (FFin neg k) = Some s ->
   faithful_rendering parse_denote s (f_denote (FFin neg k)).
@@ -416,7 +420,10 @@ Proof.
   rewrite f_of_Z_1000 in H. cbv zeta in H.
   assert (Hmsv : valid_f64 (f_mul (FFin neg k) (FFin false (1000 * F_UNIT)))).
   { apply f_mul_valid; [exact Hv|]. rewrite <- f_of_Z_1000. unfold f_of_Z. apply f_of_ratio_valid; lia. }
-  destruct (f_mul (FFin neg k) (FFin false (1000 * F_UNIT))) as [|nb|nb kb] eqn:Hms; cbn [f_trunc] in H; try discriminate.
+  destruct (f_mul (FFin neg k) (FFin false (1000 * F_UNIT))) as [|nb|nb kb] eqn:Hms;
+    cbn [f_abs f_eqb Bool.eqb negb f_trunc] in H; try discriminate.
+  { (* the millisecond count is infinite: rendered exactly *)
+    injection H as <-. exact (exact_rendering_faithful (FFin neg k) Hv). }
   destruct Hmsv as [Hrb Htb].
   set (i := Z.quot (f_signed nb kb) F_UNIT) in *.
   destruct (f_eqb_Z (FFin nb kb) i) eqn:Hint.
@@ -444,7 +451,7 @@ Qed.
 Theorem timeout_roundtrip : forall v s, valid_f64 v -> timeout_unparse v = Some s ->
   faithful_rendering parse_denote s (f_denote v).
 Proof.
-  intros v s Hv H. unfold timeout_unparse in H. rewrite inf_literal in H.
+  intros v s Hv H. unfold timeout_unparse in H. rewrite inf_literal, ms_inf_literal in H.
   pose proof F_UNIT_pos as HU.
   destruct v as [|neg|neg k].
   - (* nan *) cbn [f_eqb] in H. injection H as <-. exact (exact_rendering_faithful FNan I).
@@ -472,88 +479,59 @@ Proof.
     eexists. split; [reflexivity|apply same_tval_refl].
 Qed.
 
-(* ---------------------------------------------------------------- when unparse returns *)
+(* ---------------------------------------------------------------- unparse always returns *)
 
-(* a non-negative finite float that is not a whole number >= 1 is below 2^52 *)
-Lemma non_integral_small : forall k, representable k -> k <> Z.quot k F_UNIT * F_UNIT -> k < F_UNIT * 2 ^ 52.
+(* the product of two finite floats is finite or infinite, never nan *)
+Lemma f_mul_fin_cases : forall a k1 b k2,
+  (exists kb, f_mul (FFin a k1) (FFin b k2) = FFin (xorb a b) kb) \/ f_mul (FFin a k1) (FFin b k2) = FInf (xorb a b).
 Proof.
-  intros k [Hk Hm] Hni. pose proof F_UNIT_pos as HU.
-  destruct (Z_lt_le_dec k (F_UNIT * 2 ^ 52)) as [Hlt|Hge]; [exact Hlt|]. exfalso. apply Hni.
-  assert (Hpow : 2 ^ 1126 <= k) by (rewrite <- pow2_1074 in Hge; rewrite <- Z.pow_add_r in Hge by lia; exact Hge).
-  assert (Hk0 : 0 < k) by (assert (0 < 2 ^ 1126) by (apply Z.pow_pos_nonneg; lia); lia).
-  assert (Hlog : 1126 <= Z.log2 k) by (apply Z.log2_le_pow2; assumption).
-  assert (Hs : f_shift k = 1074 + (Z.log2 k - 1126)) by (unfold f_shift; lia).
-  rewrite Hs, Z.pow_add_r, pow2_1074 in Hm by lia.
-  set (t := 2 ^ (Z.log2 k - 1126)) in *. assert (Ht : 0 < t) by (apply Z.pow_pos_nonneg; lia).
-  assert (Hdiv : k = F_UNIT * (t * (k / (F_UNIT * t)))).
-  { pose proof (Z.div_mod k (F_UNIT * t) ltac:(nia)) as Hd. rewrite Hm in Hd. lia. }
-  rewrite Z.quot_div_nonneg by lia.
-  set (m := t * (k / (F_UNIT * t))) in *. clearbody m.
-  assert (Hq : m = k / F_UNIT) by (apply Z.div_unique_exact; [lia|exact Hdiv]).
-  rewrite <- Hq. lia.
+  intros a k1 b k2. cbn [f_mul]. unfold f_of_ratio, f_mk.
+  destruct (F_TOP <=? round_mag (k1 * k2) (F_UNIT * F_UNIT)); [right; reflexivity|left; eexists; reflexivity].
 Qed.
 
-Lemma ms_finite : forall k, 0 <= k -> k < F_UNIT * 2 ^ 52 ->
-  exists kb, f_mul (FFin false k) (FFin false (1000 * F_UNIT)) = FFin false kb.
+(* unparse returns a string for EVERY float: finite of either sign and any magnitude, infinite, nan *)
+Theorem timeout_unparse_total : forall v, timeout_unparse v <> None.
 Proof.
-  intros k Hk Hlt. pose proof F_UNIT_pos as HU. cbn [f_mul xorb]. unfold f_of_ratio.
-  eexists. apply f_mk_fin.
-  pose proof (round_mag_bound (k * (1000 * F_UNIT)) (F_UNIT * F_UNIT) ltac:(nia) ltac:(nia)) as Hb.
-  replace (k * (1000 * F_UNIT) * F_UNIT) with (k * 1000 * (F_UNIT * F_UNIT)) in Hb by ring.
-  rewrite Z.div_mul in Hb by nia.
-  rewrite F_TOP_eq.
-  assert (Hc : 2000 * 2 ^ 52 + 1 <= 2 ^ 1024) by (apply Z.leb_le; vm_compute; reflexivity).
-  set (a := 2 ^ 52) in *. set (b := 2 ^ 1024) in *. nia.
-Qed.
-
-(* unparse returns for every non-negative float (and nan) *)
-Theorem timeout_unparse_total_nonneg : forall v, valid_f64 v -> f_neg v = false ->
-  timeout_unparse v <> None.
-Proof.
-  intros v Hv Hn. unfold timeout_unparse. rewrite inf_literal. pose proof F_UNIT_pos as HU.
+  intros v. unfold timeout_unparse. rewrite inf_literal, ms_inf_literal. pose proof F_UNIT_pos as HU.
   destruct v as [|neg|neg k].
   - cbn [f_eqb]. discriminate.
   - replace (f_eqb (FInf neg) (FInf neg)) with true by (cbn; rewrite Bool.eqb_reflx; reflexivity).
     cbn [f_abs f_eqb Bool.eqb negb]. discriminate.
-  - cbn [f_neg] in Hn. subst neg. destruct Hv as [Hr Ht]. pose proof Hr as [Hk Hm].
-    replace (f_eqb (FFin false k) (FFin false k)) with true by (cbn; rewrite Z.eqb_refl; reflexivity).
-    cbn [f_abs f_eqb negb f_trunc option_map f_signed].
-    assert (Htail : k < F_UNIT * 2 ^ 52 ->
-      match f_trunc (f_mul (FFin false k) (f_of_Z timeout_unparse_small_factor)) with
-      | Some i =>
-          match (if f_eqb_Z (f_mul (FFin false k) (f_of_Z timeout_unparse_small_factor)) i
-                 then option_map (fun q => f_eqb q (FFin false k))
-                        (f_div (f_mul (FFin false k) (f_of_Z timeout_unparse_small_factor))
-                               (f_of_Z timeout_unparse_small_divisor))
-                 else Some false) with
-          | Some true => Some (str_of_Z i ++ timeout_unparse_small_suffix)
-          | Some false => Some (float_repr (FFin false k) ++ timeout_unparse_exact_suffix)
-          | None => None
-          end
-      | None => None
-      end <> None).
-    { intros Hlt. unfold timeout_unparse_small_factor, timeout_unparse_small_divisor. rewrite f_of_Z_1000.
-      destruct (ms_finite k Hk Hlt) as (kb & ->). cbn [f_trunc].
-      destruct (f_eqb_Z (FFin false kb) (Z.quot (f_signed false kb) F_UNIT)); [|discriminate].
-      rewrite f_div_fin by lia. cbn [option_map].
-      destruct (f_eqb _ _); discriminate. }
-    destruct (f_geb_Z (FFin false k) timeout_unparse_threshold) eqn:Hge.
-    + destruct (f_eqb_Z (FFin false k) (Z.quot k F_UNIT)) eqn:Heq; [discriminate|].
-      apply Htail. apply non_integral_small; [exact Hr|].
-      cbn [f_eqb_Z f_signed] in Heq. apply Z.eqb_neq in Heq. exact Heq.
-    + apply Htail. unfold timeout_unparse_threshold in Hge. cbn [f_geb_Z f_signed] in Hge.
-      apply Z.leb_gt in Hge. assert (1 <= 2 ^ 52) by (apply Z.leb_le; reflexivity). nia.
+  - replace (f_eqb (FFin neg k) (FFin neg k)) with true by (cbn; rewrite Z.eqb_refl; reflexivity).
+    cbn [f_abs f_eqb negb f_trunc option_map].
+    assert (Htail :
+      (if negb (f_eqb (f_abs (f_mul (FFin neg k) (f_of_Z timeout_unparse_small_factor))) (FInf false))
+       then match f_trunc (f_mul (FFin neg k) (f_of_Z timeout_unparse_small_factor)) with
+            | Some i =>
+                match (if f_eqb_Z (f_mul (FFin neg k) (f_of_Z timeout_unparse_small_factor)) i
+                       then option_map (fun q => f_eqb q (FFin neg k))
+                              (f_div (f_mul (FFin neg k) (f_of_Z timeout_unparse_small_factor))
+                                     (f_of_Z timeout_unparse_small_divisor))
+                       else Some false) with
+                | Some true => Some (str_of_Z i ++ timeout_unparse_small_suffix)
+                | Some false => Some (float_repr (FFin neg k) ++ timeout_unparse_exact_suffix)
+                | None => None
+                end
+            | None => None
+            end
+       else Some (float_repr (FFin neg k) ++ timeout_unparse_exact_suffix)) <> None).
+    { unfold timeout_unparse_small_factor, timeout_unparse_small_divisor. rewrite f_of_Z_1000.
+      destruct (f_mul_fin_cases neg k false (1000 * F_UNIT)) as [(kb & ->)| ->].
+      - cbn [f_abs f_eqb negb f_trunc].
+        destruct (f_eqb_Z (FFin (xorb neg false) kb) (Z.quot (f_signed (xorb neg false) kb) F_UNIT)); [|discriminate].
+        rewrite f_div_fin by lia. cbn [option_map]. destruct (f_eqb _ _); discriminate.
+      - cbn [f_abs f_eqb Bool.eqb negb]. discriminate. }
+    destruct (f_geb_Z (FFin neg k) timeout_unparse_threshold);
+      [destruct (f_eqb_Z (FFin neg k) (Z.quot (f_signed neg k) F_UNIT)); [discriminate|]|]; exact Htail.
 Qed.
 
-(* ... but not for every negative one: -1e306 is a value parse produces, and unparse raises on it
-   (value * 1000 overflows to -inf and int(-inf) raises OverflowError) *)
-Theorem timeout_unparse_negative_overflow_refuted :
-  exists s v, timeout_parse s = Some v /\ valid_f64 v /\ f_neg v = true /\ timeout_unparse v = None.
+(* every float survives: unparse returns, and parsing what it returns gives the value back *)
+Theorem timeout_roundtrip_total : forall v, valid_f64 v ->
+  exists s, timeout_unparse v = Some s /\ faithful_rendering parse_denote s (f_denote v).
 Proof.
-  exists [45; 49; 101; 51; 48; 54; 115]. eexists.
-  split; [vm_compute; reflexivity|].
-  split; [split; [split; [vm_compute; discriminate|vm_compute; reflexivity]|vm_compute; reflexivity]|].
-  split; [reflexivity|vm_compute; reflexivity].
+  intros v Hv. destruct (timeout_unparse v) as [s|] eqn:Hs.
+  - exists s. split; [reflexivity|apply (timeout_roundtrip v s Hv Hs)].
+  - exfalso. apply (timeout_unparse_total v Hs).
 Qed.
 
 (* ---------------------------------------------------------------- everything parse returns is a float *)
@@ -686,15 +664,10 @@ Theorem timeout_parse_unparse_parse : forall s v u,
   faithful_rendering parse_denote u (f_denote v).
 Proof. intros s v u Hp Hu. apply (timeout_roundtrip v u (timeout_parse_valid s v Hp) Hu). Qed.
 
-Theorem timeout_parse_unparse_total_nonneg : forall s v,
-  timeout_parse s = Some v -> f_neg v = false ->
+Theorem timeout_parse_unparse_total : forall s v,
+  timeout_parse s = Some v ->
   exists u, timeout_unparse v = Some u /\ faithful_rendering parse_denote u (f_denote v).
-Proof.
-  intros s v Hp Hn. pose proof (timeout_parse_valid s v Hp) as Hv.
-  destruct (timeout_unparse v) as [u|] eqn:Hu.
-  - exists u. split; [reflexivity|apply (timeout_roundtrip v u Hv Hu)].
-  - exfalso. apply (timeout_unparse_total_nonneg v Hv Hn Hu).
-Qed.
+Proof. intros s v Hp. apply timeout_roundtrip_total. apply (timeout_parse_valid s v Hp). Qed.
 
 (* ---------------------------------------------------------------- numbers from halmos.toml *)
 
